@@ -533,6 +533,8 @@ func (e *Engine) Stop() {
 	}
 
 	e.stopListeners()
+	// connections served in blocking mode are not known to the nbio.Engine.
+	e.closeAllConns()
 	e.Engine.Stop()
 }
 
